@@ -94,6 +94,7 @@ import os, shutil
 from vf import build, tlc, trace
 from vf import run as hrun
 from vf.core import InfraError
+from checks.deferred import Deferred
 
 LEVEL = "model_checking"
 READY = True
@@ -337,7 +338,11 @@ def _drive(ctx, emits, funcs, rd, tag=""):
         fam = dict(FUNCS)[fn]
         ev = hrun.read_ndjson(j[1])
         if h.timed_out:
-            raise InfraError("c11 harness timed out on %s" % fn)
+            # a changed kernel may hang: not a verdict (machine load cannot be told from a hang), but what the process recorded is still judged and
+            # the other functions / the histories still run; settled at the end of run()
+            if getattr(ctx, "_deferred", None) is None:
+                raise InfraError("c11 harness timed out on %s" % fn)
+            ctx._deferred.add("c11 harness timed out on %s" % fn)
         if h.rc == 2:
             raise InfraError("c11 harness usage/format error on %s: %s" % (fn, h.err[-500:]))
         done = [e for e in ev if e.get("e") == "Done"]
@@ -381,7 +386,9 @@ def _drive(ctx, emits, funcs, rd, tag=""):
                 ctx.extra("KERNEL:%s:r-squared" % fn,
                           "%s returns the SQUARE of the Pearson coefficient (cell %s of a %dx%d operand: %s, Pearson r = %s): the sign of a negative correlation is lost; the header says "
                           "'pearson correlation matrix', the .c comment names the quantity RSQ - the specification accepts either reading" % (fn, e["at"], e["r"], e["c"], e["got"], e["pearson"]))
-        if h.rc != 0 or not done:
+        if h.timed_out:
+            pass
+        elif h.rc != 0 or not done:
             last = crash[-1] if crash else {}
             r_, k_, c_ = last.get("r", -1), last.get("k", -1), last.get("c", -1)
             sc = shape_class(fam, r_, k_, c_) if crash else "unknown"
@@ -512,7 +519,9 @@ def _hist_run(ctx, groups, rd):
     for j, h in zip(jobs, res):
         g = j[1]
         if h.timed_out:
-            raise InfraError("c11_hist timed out on group %s" % g)
+            if getattr(ctx, "_deferred", None) is None:
+                raise InfraError("c11_hist timed out on group %s" % g)
+            ctx._deferred.add("c11_hist timed out on group %s" % g)       # see _drive: the recorded histories are still judged
         if h.rc == 2:
             raise InfraError("c11_hist usage/format error on group %s: %s" % (g, h.err[-500:]))
         ev = hrun.read_ndjson(j[0])
@@ -529,7 +538,7 @@ def _hist_run(ctx, groups, rd):
                 ctx.extra(sig, what)
             else:
                 ctx.violation(sig, what, dict(kind="hist", group=g, fn=fn))
-        if not done:
+        if not done and not h.timed_out:
             if not crashes:
                 _report(ctx, "MatrixColDescStat@missing" if extra else "hist", "KERNEL:hist:%s:%s" % (g, ":".join((h.san or "crash:rc%d" % h.rc).split(":")[:2])),
                         "history group %s died (rc %d): %s\n%s" % (g, h.rc, h.san, _san_brief(h.err)), dict(kind="hist", group=g, fn="?"))
@@ -710,6 +719,7 @@ def run(ctx):
         "MatrixGetMaxValueIndex/MatrixGetMinValueIndex results are judged by TLC on the recorded matrix and position (any cell holding the extreme value is accepted)",
     ]
     _unroll(ctx)
+    ctx._deferred = Deferred(ctx)
     # the small model check of the store machine (2 TLC workers) runs beside the enumeration of Kernels.tla (W workers); the histories and
     # their validation then run beside the replay of the enumerated cases
     import threading
@@ -743,6 +753,7 @@ def run(ctx):
             t2.join()
     if "err" in side:
         raise side["err"]
+    ctx._deferred.settle()
 
 
 def _run_replay(ctx, r):
